@@ -40,7 +40,9 @@ func TestC07_Fallback(t *testing.T) {
 	rec.RequireShare("threshold-set", 0.30)
 	knownNeg := isKnown("C07", c07KnownNegThreshold)
 	B := constants.FuzzyNormalizationBase
+	caseNo := 0
 	rapid.Check(t, func(t *rapid.T) {
+		caseNo++ // (rare, expensive constructions are scheduled by case number: drawn integers favour their bounds)
 		cmds, cls := gen.DB(t, gen.CmdOpts{Platforms: true, Unicode: rapid.IntRange(0, 3).Draw(t, "u") == 0, Long: true}, []int{0, 1, 3, 10, 1})
 		needle := ""
 		if rapid.IntRange(0, 15).Draw(t, "needle-db") == 0 {
@@ -99,6 +101,29 @@ func TestC07_Fallback(t *testing.T) {
 			db = gen.Load(t, cmds)
 			q, qc = word, "filtered-lexical"
 		}
+		crowded := ""
+		if needle == "" && !longTail && filtered == "" && caseNo%150 == 75 {
+			// a big database (beyond any block size a matcher may work in) in which dozens to hundreds of
+			// entries match the query BETTER than the one entry the filter accepts, all of them rejected by
+			// that filter and sitting around it: the accepted entry must still come back
+			n := rapid.SampledFrom([]int{2049, 2300, 3073, 4100}).Draw(t, "crowd-n")
+			k := rapid.SampledFrom([]int{66, 130, 300}).Draw(t, "crowd-decoys")
+			word := rapid.SampledFrom([]string{"qzjxvk", "wyvquoz"}).Draw(t, "crowd-word")
+			crowded = rapid.SampledFrom([]string{"pipeline", "platform"}).Draw(t, "crowd-filter")
+			big := gen.Bulk(t, n, gen.CmdOpts{})
+			at := rapid.IntRange(0, n-k-2).Draw(t, "crowd-at")
+			for i := 0; i < k; i++ {
+				big[at+i] = database.Command{Command: fmt.Sprintf("%s%d run", word, i), Description: "matches better, not eligible"}
+				if crowded == "platform" {
+					big[at+i].Platform = []string{"plan9"}
+				}
+			}
+			acc := at + rapid.SampledFrom([]int{0, k / 2, k - 1, k}).Draw(t, "crowd-accepted-at")
+			big[acc] = database.Command{Command: strings.Join(strings.Split(word, ""), "-") + " all | cat", Description: "spelled out", Pipeline: true}
+			cmds, cls = big, "crowded"
+			db = gen.Load(t, cmds)
+			q, qc = word, "crowded-out"
+		}
 		reindexed := false
 		if len(cmds) > 0 && len(cmds) <= 80 && rapid.IntRange(0, 5).Draw(t, "same-size-reindex") == 0 {
 			// the database held as many OTHER entries, was searched there (typo fallback included), then
@@ -122,6 +147,10 @@ func TestC07_Fallback(t *testing.T) {
 			opt.AllPlatforms, opt.PipelineOnly, opt.Platforms, opt.NoCrossPlatform = true, false, nil, false
 		}
 		var labels0 []string
+		if crowded != "" {
+			filtered = crowded // the same option settings as the small filtered construction
+			opt.Limit = rapid.SampledFrom([]int{1, 5, 5, 10, 50}).Draw(t, "crowd-limit")
+		}
 		switch filtered {
 		case "pipeline":
 			opt.PipelineOnly, opt.FuzzyThreshold = true, 0
